@@ -25,10 +25,19 @@ def run_property(prop_id: str, tier: str) -> int:
         mod = importlib.import_module(f"sa.props.{prop_id.lower()}")
         run = Run(prop_id, tier, seed)
         prog = Program()
-        explanation = mod.check(run, prog, tier)
         from .engine.report import load_known_findings, match_known
 
         known = load_known_findings()
+        try:
+            explanation = mod.check(run, prog, tier)
+        except AnalysisError as exc:
+            # A later rule that cannot read the code must not mask what earlier rules already decided: constructs
+            # that were reported stay reported (exit 1); only a run without any report fails closed (exit 2).
+            if not [v for v in run.violations if match_known(known, prop_id, v) is None]:
+                raise
+            print(f"  (ANALYSIS-ERROR after {len(run.violations)} report(s), rules after it were not evaluated: {exc})")
+            run.note(f"analysis stopped early: {exc}")
+            return run.finish(f"analysis stopped early after reporting: {exc}")
         unlisted = [v for v in run.violations if match_known(known, prop_id, v) is None]
         # (a listed known finding is shared by the base tree and every mutant: it does not stand in the sweep's way)
         if (tier == "thorough" and not unlisted and hasattr(mod, "run_rules")
